@@ -345,6 +345,10 @@ class Units(object):
                 return root
             return math.sqrt(value)
 
+        if value < 0:
+            raise ValueError('units with a negative coefficient have no '
+                             'square root: %s' % value)
+
         root = np.sqrt(value)
         if root == int(root):
             root = int(root)
